@@ -87,7 +87,7 @@ def clause_e(repo, chk, res):
             continue
         seen += 1
         def attrs(stmts):
-            return {x.attr for s_ in stmts for x in ast.walk(s_) if isinstance(x, ast.Attribute) and isinstance(x.value, ast.Name) and x.value.id == "p_i" and x.attr in ("mass", "width")}
+            return {x.attr for s_ in stmts for x in ast.walk(s_) if isinstance(x, ast.Attribute) and isinstance(x.value, ast.Name) and x.attr in ("mass", "width")}
         a_if, a_else = attrs(st.body), attrs(st.orelse)
         neglect = any("_neglect_when_set_params" in norm_text(s_) for s_ in st.orelse)
         ok = a_if == {want[t.left.value]} and a_else == {want[t.left.value]} and neglect
@@ -101,24 +101,63 @@ def clause_e(repo, chk, res):
         fn = repo.fn(key)
         from ..model import parent_map
 
-        pm = parent_map(fn.node)
         guarded_attrs = {}
         for x in walk_local(fn.node):
             if isinstance(x, ast.Call) and isinstance(x.func, ast.Name) and x.func.id == "hasattr" and len(x.args) == 2 and isinstance(x.args[1], ast.Constant):
                 guarded_attrs.setdefault((norm_text(x.args[0]), x.args[1].value), []).append(x)
+        if not guarded_attrs:
+            continue
+        from ..cfg import CFG, forward
+
+        cfg = CFG(fn.node)
         for (recv, attr), guards in sorted(guarded_attrs.items()):
-            for x in walk_local(fn.node):
-                if isinstance(x, ast.Attribute) and x.attr == attr and norm_text(x.value) == recv and isinstance(x.ctx, ast.Load):
-                    # is x inside an `if hasattr(recv, attr)` body ?
-                    cur, ok = x, False
-                    while cur in pm:
-                        par = pm[cur]
-                        if isinstance(par, ast.If) and cur in par.body and any("hasattr(%s, %r)" % (recv, attr) in norm_text(par.test).replace('"', "'") for _ in [0]):
-                            ok = True
-                        cur = par
-                    chk.instance("E-guard", "%s: read of %s.%s at line %d guarded by hasattr: %s" % (key.split("::")[1], recv, attr, x.lineno, ok), show=False)
-                    if not ok:
-                        chk.violation("E-guard", key, "unguarded:%s.%s" % (recv, attr), "`%s.%s` is read without a guard although the same function tests hasattr(%s, %r) elsewhere: for minimisers whose result has no %s (scipy CG, Nelder-Mead) the fit ends in AttributeError" % (recv, attr, recv, attr, attr), file=FIT, line=x.lineno)
+            probe = "hasattr(%s,%r)" % (recv, attr)
+
+            def polarity(test):
+                """+1: test true implies the attribute exists; -1: test false implies it; 0: says nothing"""
+                t = test
+                sign = 1
+                while isinstance(t, ast.UnaryOp) and isinstance(t.op, ast.Not):
+                    t, sign = t.operand, -sign
+                txt = norm_text(t).replace('"', "'").replace(" ", "")
+                if txt == probe:
+                    return sign
+                if isinstance(t, ast.BoolOp) and isinstance(t.op, ast.And) and sign == 1 and any(norm_text(v).replace('"', "'").replace(" ", "") == probe for v in t.values):
+                    return 1
+                if isinstance(t, ast.BoolOp) and isinstance(t.op, ast.Or) and sign == -1 and any(norm_text(v).replace('"', "'").replace(" ", "") == probe for v in t.values):
+                    return -1
+                return 0
+
+            def transfer(node, state, kind, recv=recv):
+                if kind in ("exc", "gen"):
+                    return [state]
+                a = node.ast
+                if node.kind == "test" and a is not None:
+                    pol = polarity(a.test)
+                    if pol == 1 and kind == "t" or pol == -1 and kind == "f":
+                        return [True]
+                # a rebinding of the receiver forgets what is known about it
+                if node.kind in ("stmt", "for") and a is not None and isinstance(a, (ast.Assign, ast.AugAssign, ast.For)):
+                    tg = a.targets if isinstance(a, ast.Assign) else [a.target]
+                    if any(isinstance(x, ast.Name) and x.id == recv for t_ in tg for x in ast.walk(t_)):
+                        return [False]
+                return [state]
+
+            at, _ = forward(cfg, False, transfer)
+            for node in cfg.nodes:
+                a = node.ast
+                if a is None or node.kind in ("with_exit", "handler") or isinstance(a, (ast.FunctionDef, ast.ClassDef)):
+                    continue
+                scan = a.test if node.kind == "test" else (a.iter if node.kind == "for" else a)
+                reads = [x for x in walk_stmt(scan) if isinstance(x, ast.Attribute) and x.attr == attr and norm_text(x.value) == recv and isinstance(x.ctx, ast.Load)]
+                if not reads:
+                    continue
+                # a read inside the guarded operand of `hasattr(..) and <read>` / inside an IfExp is guarded locally
+                local_ok = node.kind == "test" and polarity(a.test) == 1 and isinstance(a.test, ast.BoolOp)
+                ok = local_ok or (bool(at[node.id]) and all(at[node.id]))
+                chk.instance("E-guard", "%s: read of %s.%s at line %d guarded by hasattr on every path: %s" % (key.split("::")[1], recv, attr, reads[0].lineno, ok), show=False)
+                if not ok:
+                    chk.violation("E-guard", key, "unguarded:%s.%s" % (recv, attr), "`%s.%s` is read on a path where hasattr(%s, %r) has not been established although the same function tests it elsewhere: for minimisers whose result has no %s (scipy CG, Nelder-Mead) the fit ends in AttributeError" % (recv, attr, recv, attr, attr), file=FIT, line=reads[0].lineno)
     chk.require_count("E-guard", 2)
     # post-fit standardisation skips every member of a tie group (not only the non-head members)
     chk.rule("E-std", "VarsManager.standard_complex (run by fit_scipy after min_nll is taken) skips a complex variable whose r or phase component occurs anywhere in a tie group: membership is tested against the whole group, not a slice of it")
@@ -307,6 +346,15 @@ class SyncAnalysis:
             if fname == "FitResult":
                 ev.append(("report", n))
                 continue
+            # a helper of the repository that runs the optimiser on an object it is given
+            cands_h, how_h = self.res.resolve_call(self.fn, n)
+            if how_h in ("local", "module") and cands_h and all(self._runs_optimiser(g) for g in cands_h):
+                rv = {a.id for a in n.args if isinstance(a, ast.Name)}
+                if assigned:
+                    rv.add(assigned)
+                self.opt_result_vars |= rv
+                ev.append(("opt", n, rv))
+                continue
             if isinstance(n.func, ast.Name) and n.func.id in self.evaluators:
                 ev.append(("probe", n))
                 continue
@@ -334,6 +382,10 @@ class SyncAnalysis:
             tg = {x.id for x in ast.walk(node.ast.target) if isinstance(x, ast.Name)}
             ev.append(("assign", tg, vals))
         return ev
+
+    @staticmethod
+    def _runs_optimiser(g, _seen=None):
+        return any(isinstance(c, ast.Call) and ((isinstance(c.func, ast.Attribute) and c.func.attr in OPT_CALLS) or (isinstance(c.func, ast.Name) and c.func.id in OPT_CALLS)) for c in walk_local(g.node))
 
     @staticmethod
     def from_result(expr, tainted):
@@ -419,6 +471,9 @@ def clause_b(repo, chk, res, eff):
                         pn = strict_names(an.aliases, p_arg)
                         if pn & fresh:
                             ok_params = True
+                        # a reader call written in the argument position reads the model at the report itself
+                        if isinstance(p_arg, ast.Call) and "params" in eff.snapshot_cells(f, p_arg):
+                            ok_params = True
                         if pn & synced or ("expr:" + norm_text(p_arg)) in synced:
                             ok_params = True
                     path = witness_path(an.cfg, wit, node.id, st)
@@ -456,6 +511,8 @@ def clause_b(repo, chk, res, eff):
 
 # --------------------------------------------------------------------------- (c)
 def clause_c(repo, chk, res):
+    _METHOD_CONSTS.clear()
+    _METHOD_CONSTS.update({k: v for k, v in repo.mod(FIT).toplevel_assign.items() if isinstance(v, (ast.List, ast.Tuple, ast.Set))})
     chk.rule("C-bounds", "every minimiser branch of fit_scipy's method dispatch uses bounds_dict (or a local derived from it); every function with a bounds_dict parameter uses it")
     f = repo.fn("tf_pwa/fit.py::fit_scipy")
     if "bounds_dict" not in f.all_param_names():
@@ -522,10 +579,15 @@ def clause_c(repo, chk, res):
     chk.require_count("C-bounds", 9)
 
 
+_METHOD_CONSTS = {}
+
+
 def _method_test(test):
-    """`method in [..]` / `method == ".."` -> list of labels, else None"""
+    """`method in [..]` / `method == ".."` -> list of labels, else None (a module-level named list is looked through)"""
     if isinstance(test, ast.Compare) and isinstance(test.left, ast.Name) and test.left.id == "method" and len(test.ops) == 1:
         c = test.comparators[0]
+        if isinstance(c, ast.Name) and c.id in _METHOD_CONSTS:
+            c = _METHOD_CONSTS[c.id]
         if isinstance(test.ops[0], ast.In) and isinstance(c, (ast.List, ast.Tuple, ast.Set)):
             return [const_value(e) for e in c.elts]
         if isinstance(test.ops[0], ast.Eq) and isinstance(c, ast.Constant):
@@ -580,13 +642,27 @@ def clause_d(repo, chk):
             chk.violation("D-keys", set_params.key, "guard:%s" % gk, "guard tests key %r but the unwrap reads %s" % (gk, sorted(rkeys)), file=set_params.mod.rel, line=set_params.lineno)
     # save_params: flat dict of get_params()
     sp = repo.fn("tf_pwa/config_loader/config_loader.py::ConfigLoader.save_params")
-    flat = False
-    for n in walk_local(sp.node):
-        if isinstance(n, ast.DictComp):
-            src = {x.id for x in ast.walk(n.generators[0].iter) if isinstance(x, ast.Name)}
-            flat = True
-    dumps = [n for n in walk_local(sp.node) if isinstance(n, ast.Call) and isinstance(n.func, ast.Attribute) and n.func.attr == "dump"]
-    chk.instance("D-keys", "save_params writes a flat {name: float} mapping via json.dump: %s" % (flat and bool(dumps)))
+    import sympy as _sp
+
+    from ..sym import SelfObj as _SelfObj, Translator as _Tr, Unmodelled as _Unm
+
+    dumped = []
+
+    def _dump(tr, d, args, kwargs, n):
+        if d.split(".")[-1] == "dump":
+            dumped.append(args[0])
+            return None
+        return NotImplemented
+
+    A_, B_ = _sp.symbols("A B")
+    tr_ = _Tr(repo, hooks={"numeric_call": _dump, sp.cls.methods["get_params"].key if "get_params" in sp.cls.methods else "x": (lambda tr, a, k, n: {"R_mass": A_, "R_width": B_})}, max_depth=2)
+    try:
+        tr_.call_fn(sp, [_sp.Symbol("file_name")], self_obj=_SelfObj(sp.cls, {}))
+    except _Unm as e:
+        raise AnalysisError("save_params not interpretable: %s" % e)
+    flat = len(dumped) == 1 and isinstance(dumped[0], dict) and dumped[0] == {"R_mass": A_, "R_width": B_}
+    dumps = dumped
+    chk.instance("D-keys", "save_params, interpreted on two parameters, dumps the flat {name: value} mapping: %s" % flat)
     if not (flat and dumps):
-        chk.violation("D-keys", sp.key, "flat", "save_params no longer writes the flat name->value mapping that set_params accepts", file=sp.mod.rel, line=sp.lineno)
+        chk.violation("D-keys", sp.key, "flat", "save_params no longer writes the flat name->value mapping that set_params accepts (it dumps %s)" % (dumped[:1],), file=sp.mod.rel, line=sp.lineno)
     chk.require_count("D-keys", 3)
